@@ -93,6 +93,31 @@ impl MessageBody for NoDebug {
     }
 }
 
+/// zero sized with a destructor: creations and drops are counted by the registry
+#[derive(Debug, PartialEq)]
+pub struct ZstTok;
+impl ZstTok {
+    fn create() -> Self {
+        tracked::anon_created("body-ZstTok");
+        ZstTok
+    }
+}
+impl Clone for ZstTok {
+    fn clone(&self) -> Self {
+        ZstTok::create()
+    }
+}
+impl Drop for ZstTok {
+    fn drop(&mut self) {
+        tracked::anon_dropped("body-ZstTok");
+    }
+}
+impl MessageBody for ZstTok {
+    fn byte_len(&self) -> usize {
+        0
+    }
+}
+
 #[derive(Clone, Copy, PartialEq, Eq, Debug)]
 pub enum How {
     /// set_content / with_content (needs Clone + Debug)
@@ -181,6 +206,7 @@ plain!(Generic<u16>, "derive generic<u16>", |v| Generic(v as u16, 3), |_v| 3);
 plain!(Generic<String>, "derive generic<String>", |v| Generic(s_of(v), 3), |v| s_len(v) + 1);
 plain!(TrA, "TrA(tracked)", |v| TrA(Tracked::with_value("body-TrA", v)), |v| (v % 50) as usize);
 plain!(TrB, "TrB(tracked)", |v| TrB(Tracked::with_value("body-TrB", v)), |v| (v % 50) as usize);
+plain!(ZstTok, "ZstTok(zero sized, counted drops)", |_v| ZstTok::create(), |_v| 0);
 
 impl Zoo for NonClone {
     const NAME: &'static str = "NonClone(tracked)";
@@ -216,7 +242,7 @@ impl Zoo for NoDebug {
     }
 }
 
-pub const N_TYPES: usize = 29;
+pub const N_TYPES: usize = 30;
 
 macro_rules! dispatch {
     ($tag:expr, $f:ident, $($arg:expr),*) => {
@@ -249,7 +275,8 @@ macro_rules! dispatch {
             25 => $f::<TrA>($($arg),*),
             26 => $f::<TrB>($($arg),*),
             27 => $f::<NonClone>($($arg),*),
-            _ => $f::<NoDebug>($($arg),*),
+            28 => $f::<NoDebug>($($arg),*),
+            _ => $f::<ZstTok>($($arg),*),
         }
     };
 }
@@ -357,11 +384,12 @@ pub struct Obs {
 }
 
 fn is_twin(a: usize, b: usize) -> bool {
-    // layout compatible pairs: u32 / i32 / f32 / [u8;4] / TwinA / TwinB, String / Vec<u8>, TrA / TrB
+    // layout compatible pairs: u32 / i32 / f32 / [u8;4] / TwinA / TwinB, String / Vec<u8>, TrA / TrB, the zero sized types
     let g = |x: usize| match x {
         1 | 2 | 3 | 4 | 17 | 18 => 1,
         9 | 10 => 2,
         25 | 26 => 3,
+        16 | 21 | 29 => 4,
         _ => 0,
     };
     a != b && g(a) != 0 && g(a) == g(b)
